@@ -67,6 +67,45 @@ def native_differential(prop, cfg, seed, trials=400):
     return [ob]
 
 
+def native_search_for_undecided(prop, cfg, hs, results, seed, trials=300):
+    """a harness the symbolic engine could not decide (syntax outside the verified subset - typical after a refactoring) is not left
+    at 'undecided' without trying: the SAME contract text is evaluated natively (CPython, the real code) on seeded random inputs.
+    A clause that fails there is a real failing input (reported as a violation, replayable); finding none proves nothing and the
+    verdict stays UNDECIDED.  This is a bounded search and is labelled as such in the evidence."""
+    hmap = dict(hs)
+    names = sorted({hmap[hidx].name for hidx, cidx, r in results if r["undecided"]})
+    out = []
+    env = dict(os.environ)
+    env.update(PYVC_NATIVE="1", PYTHONPATH=HERE, VERIF_SEED=str(seed))
+    env.pop("PYTHONHASHSEED", None)
+    procs = []
+    for n in names[:16]:
+        procs.append((n, time.time(), subprocess.Popen([NATIVE_PY, "-m", "pyvc.replay", "--fuzz-exact", ",".join(cfg["modules"]), n, str(trials)], cwd=HERE, env=env,
+                                                       stdout=subprocess.PIPE, stderr=subprocess.PIPE, text=True)))
+    for n, t0, p in procs:
+        try:
+            so, se = p.communicate(timeout=600)
+        except subprocess.TimeoutExpired:
+            p.kill()
+            continue
+        doc = None
+        for line in reversed(so.strip().splitlines()):
+            try:
+                doc = json.loads(line)
+                break
+            except Exception:
+                continue
+        if not doc or not doc.get("failed"):
+            continue
+        for clause, cnt in sorted(doc["failed"].items()):
+            out.append({"name": clause, "verdict": "refuted", "time_s": time.time() - t0, "backend": "cpython-native-search", "kind": "native_search",
+                        "harness": n, "case_index": 0, "case": doc.get("first_failing_trial", {}).get(clause, {}).get("case"),
+                        "model": {"native_search": {"seed": seed, "trials": trials, "failing_trials": cnt}},
+                        "native_search": {"seed": seed, "trials": trials},
+                        "native": {"reproduced": True, "observed": doc.get("first_failing_trial", {}).get(clause), "how": "seeded native search of the undecided harness (bounded)"}})
+    return out
+
+
 def second_opinion(smt2, timeout_s):
     """z3 left it unknown: ask cvc5 and z3 4.8.12 on the SMT-LIB text"""
     import tempfile
@@ -128,6 +167,7 @@ def main(argv=None):
     extra = []
     for fn in cfg.get("extra", []):
         extra.extend(fn(a.tier, seed))
+    extra.extend(native_search_for_undecided(a.prop, cfg, hs, results, seed))
     if a.tier == "thorough" and not a.only:
         extra.extend(native_differential(a.prop, cfg, seed))
     return finish(a, cfg, hs, results, extra, seed, t0)
@@ -238,6 +278,8 @@ def finish(a, cfg, hs, results, extra, seed, t0):
             rp_path = os.path.join(rdir, "%s.%d.json" % (safe, tried))
             if o.get("native") is not None:  # extra obligations replay themselves
                 rp["native"] = o["native"]
+                if o.get("native_search"):
+                    rp["native_search"] = o["native_search"]
                 with open(rp_path, "w") as f:
                     json.dump(rp, f, indent=1, default=str)
                 if o["native"].get("reproduced"):
